@@ -69,10 +69,10 @@ func (r Int64) MAX(a, b Int64) Scalar {
 }
 /* -------------------------------------------------------------------------- */
 func (c Int64) ABS(a Int64) Scalar {
-  if c.Sign() == -1 {
-    c.NEG(a)
-  } else {
-    c.SET(a)
+  switch a.Sign() {
+  case -1: c.NEG(a)
+  case  0: c.Reset()
+  case  1: c.SET(a)
   }
   return c
 }
